@@ -111,7 +111,7 @@ impl<TI: GraphNameIndex> Dataset for GenericLightDataset<TI> {
                 }
             } else {
                 let r = [gi, TI::Index::ZERO, TI::Index::ZERO, TI::Index::ZERO]
-                    ..=[gi, TI::Index::MAX, TI::Index::MAX, TI::Index::ZERO];
+                    ..=[gi, TI::Index::MAX, TI::Index::MAX, TI::Index::MAX];
                 Box::new(BcdMatchingIterator::boxed(
                     &self.terms,
                     self.quads.range(r),
